@@ -43,7 +43,7 @@ DEFAULT["empty"] = "ignore"
 SITES = {"empty": ["ctor", "filter", "copy", "transform_copy"],
          "obsdup": ["ctor", "update_ids", "copy", "transform_copy"],
          "sampdup": ["ctor", "update_ids", "copy"],
-         "obssize": ["ctor"], "sampsize": ["ctor"],
+         "obssize": ["ctor", "ctor_zero"], "sampsize": ["ctor", "ctor_zero"],
          "obsmdsize": ["ctor", "ctor_long", "copy"],
          "sampmdsize": ["ctor", "ctor_long", "copy"]}
 MESSAGES = {"empty": "Empty table!", "obssize": "observation IDs differs",
@@ -98,8 +98,12 @@ def trigger(kind, site):
                                          axis="sample", inplace=False))
         return lambda: Table(a, ["o1", "o2"], ["a", "a"])
     if kind == "obssize":
+        if site == "ctor_zero":     # a matrix without rows, one obs ID
+            return lambda: Table(np.zeros((0, 2)), ["o1"], ["s1", "s2"])
         return lambda: Table(a, ["o1", "o2", "o3"], ["s1", "s2"])
     if kind == "sampsize":
+        if site == "ctor_zero":
+            return lambda: Table(np.zeros((2, 0)), ["o1", "o2"], ["s1"])
         return lambda: Table(a, ["o1", "o2"], ["s1", "s2", "s3"])
     if kind == "obsmdsize":
         md = [{"k": 1}] if site == "ctor" else [{"k": 1}, {"k": 2}, {"k": 3}]
